@@ -89,6 +89,11 @@ def run(chk):
             chk.check(okf, 'C10-R4', GH, name, f'fill branch keep=={code}: cursor {cur} advanced once after the stores; arrays sized by column {k}', f'{sorted(arrs)}',
                       f'fill branch keep=={code}: cursor increments {[unparse(s) for s in deep]}, arrays {sorted(arrs)} sized by columns {cols}: a row is left unwritten or written twice',
                       node=fb['node'])
+        from ..core.srcmodel import early_exits
+        ex = early_exits(P.ci) + early_exits(P.fi) + early_exits(P.count) + early_exits(P.fill)
+        chk.check(not ex, 'C10-R4', GH, name, 'no host is skipped: no continue/break/return inside the count or fill loops', '',
+                  f'{type(ex[0]).__name__.lower() if ex else ""} at line {ex[0].lineno if ex else 0}: a host can leave the iteration before its keep code / counter / row is written',
+                  node=ex[0] if ex else P.count, nontrivial=False)
         chk.check(len(P.fbranches) == 3 and not P.fill_else and not P.fill_other, 'C10-R4', GH, name, 'fill pass has exactly one branch per keep code', '',
                   f'{len(P.fbranches)} fill branches, else={bool(P.fill_else)}, other statements={len(P.fill_other)}', node=P.fill, nontrivial=False)
         # R5
